@@ -2204,15 +2204,34 @@ class FailureModel:
             self._memo[k] = False  # a recursive helper is not presumed safe
             if depth <= 3 and not any(isinstance(n, (ast.Yield, ast.YieldFrom, ast.Await)) for n in ast.walk(m.node)):
                 from ..cfg import CFG
-                g = CFG(m.node, "all", nonraising=lambda n, d=depth: self.nonraising(n, d + 1))
+                pm = A.parent_map(m.node)
+                g = CFG(m.node, "all", nonraising=lambda n, d=depth: self.nonraising(n, d + 1, pm))
                 self._memo[k] = g.raise_exit not in g.reach([g.entry])
         return self._memo[k]
 
-    def nonraising(self, n, depth=0) -> bool:
+    @staticmethod
+    def _caught(n, pm, names) -> bool:
+        """`n` sits in the body of a `try` one of whose handlers takes an exception of one of the classes `names` (or everything)"""
+        c, p = n, (pm or {}).get(n)
+        while p is not None:
+            if isinstance(p, ast.Try) and c in p.body:
+                for h in p.handlers:
+                    ts = [h.type] if h.type is not None and not isinstance(h.type, ast.Tuple) else list(h.type.elts) if h.type is not None else [None]
+                    if any(t is None or (A.dotted(t) or "").split(".")[-1] in tuple(names) + ("Exception", "BaseException") for t in ts):
+                        return True
+            if isinstance(p, A.FUNC_TYPES):
+                break
+            c, p = p, pm.get(p)
+        return False
+
+    def nonraising(self, n, depth=0, pm=None) -> bool:
         from ..fa import log_call
         if isinstance(n, ast.Attribute):
             return True
         if isinstance(n, ast.Subscript):
+            if self.cm.refs and self_attr(n.value, self.cm.refs) and isinstance(n.ctx, ast.Store):
+                # a weak table refuses values that cannot be weakly referenced
+                return self._caught(n, pm, ("TypeError",))
             return self._own_slot(n.value)
         if isinstance(n, ast.Call):
             if log_call(n):
@@ -2238,7 +2257,7 @@ def check_insertion_atomic(ck, cm: CacheModel, R="C06.R7"):
     fm = FailureModel(ck, cm)
     for m in cm.inserts:
         fa = FA(ck, m)
-        g = CFG(m.node, "all", nonraising=fm.nonraising)
+        g = CFG(m.node, "all", nonraising=lambda n, pm=fa.pm: fm.nonraising(n, 0, pm))
         live = g.reach([g.entry])
         nodes = lambda sts: [i for s in sts for i in g.nodes_of(s) if i in live]
         stores = [st for st in fa.stmts(ast.Assign) if any(isinstance(t, ast.Subscript) and self_attr(t.value, cm.map) for t in st.targets)]
